@@ -7,7 +7,7 @@ d=/var/tmp/au-seed-$id-$$
 rm -rf $d; rsync -a --exclude _build --exclude .git /repo/ $d/
 (cd $d && patch -p1 --no-backup-if-mismatch < $out/patch.diff) || { echo "PATCH DOES NOT APPLY"; rm -rf $d; exit 3; }
 echo "--- building test suite with the change"
-(cd $d && cmake -S . -B _build -G Ninja -DFETCHCONTENT_SOURCE_DIR_GOOGLETEST=/usr/src/googletest -DFETCHCONTENT_FULLY_DISCONNECTED=ON >/dev/null 2>&1 && cmake --build _build -j16 2>&1 | tail -1 && ctest --test-dir _build -j8 2>&1 | tail -3 | head -1)
+(cd $d && cmake -S . -B _build -G Ninja -DFETCHCONTENT_SOURCE_DIR_GOOGLETEST=/usr/src/googletest -DFETCHCONTENT_FULLY_DISCONNECTED=ON >/dev/null 2>&1 && cmake --build _build -j${SEED_JOBS:-16} 2>&1 | tail -1 && ctest --test-dir _build -j8 2>&1 | tail -3 | head -1)
 rm -rf $d/_build
 echo "--- demos (every demo*.cc compiled with g++ -std=c++14 against both trees)"
 for f in $out/demo*.cc; do
